@@ -283,6 +283,27 @@ def rule_pipeline(ctx: Ctx) -> RuleResult:
             r2 = cfg.reachable_from_edges([(t, "T")], avoid=unh + alt + keytests + [n for n in cfg.nodes if n.kind == "raisestmt"])
             if any(n in r2 for n in loops) or cfg.exit in r2:
                 rr.add(finding("ORDER", pi, t.stmt, "a key the widget returned unhandled can finish the iteration without being offered to unhandled_input", construct="unhandled key skips unhandled_input"))
+    # the statement node that contains the unhandled_input call evaluates it unconditionally: the call is not
+    # an operand that `or` / `and` / a conditional expression can skip, and the loop over the batch is never left early
+    for u in unh:
+        rr.inst("unhandled_input evaluated unconditionally", True)
+        for x in ast.walk(u.ast):
+            skip = None
+            if isinstance(x, ast.BoolOp):
+                for v in x.values[1:]:
+                    if any(isinstance(c, ast.Call) and callee_name(c) == "unhandled_input" for c in ast.walk(v)):
+                        skip = f"right operand of `{'or' if isinstance(x.op, ast.Or) else 'and'}`"
+            elif isinstance(x, ast.IfExp):
+                if any(isinstance(c, ast.Call) and callee_name(c) == "unhandled_input" for c in ast.walk(x.body)) or any(isinstance(c, ast.Call) and callee_name(c) == "unhandled_input" for c in ast.walk(x.orelse)):
+                    skip = "branch of a conditional expression"
+            if skip:
+                rr.add(finding("ORDER", pi, u.stmt, f"the unhandled_input call is the {skip} in `{norm(u.stmt, 70)}`: once an earlier event of the same batch was handled, later unhandled events are never offered to the handler", construct="unhandled_input call can be short-circuited"))
+    for lp in loops:
+        rr.inst("batch loop runs to the end", True)
+        body = cfg.reachable_from_edges([(lp, "T")], avoid=[lp])
+        early = [n for n in body if n.kind in ("break", "return")]
+        for e in early:
+            rr.add(finding("ORDER", pi, e.stmt, f"`{norm(e.stmt, 40)}` leaves the loop over the input batch early: the remaining events of the read are dropped", construct=f"batch loop left early by {norm(e.stmt, 40)}"))
     for t in me:
         rr.inst("handled mouse event is not passed to unhandled_input", True)
         r = cfg.reachable_from_edges([(t, "T")], avoid=loops)
